@@ -99,6 +99,9 @@ let () = read_lines (fun line ->
   | ["cfgrace"; id; mode; t0] ->
     let tr = M.cfg_drive M.cfixed (mode = "full") (mz_of_string t0) in
     Printf.printf "%s %s\n" id (String.concat " " (List.map string_of_obs tr))
+  | "swapf" :: id :: _ ->
+    (* a swap whose election fails at some RPC: decided by the monitors on the RPC / Store log *)
+    Printf.printf "%s *\n" id
   | "quorum" :: id :: _ ->
     (* real nodes in scripted states: judged by the "sel" line that follows (model on the TRUE heads) and by the monitors *)
     Printf.printf "%s *\n" id
